@@ -176,6 +176,11 @@ PRINT_FILTERS = [
     ("has_account('Broker')", lambda e: any('Broker' in a for a in _accounts(e))),
     ('date < 2019-01-10', lambda e: e.date < datetime.date(2019, 1, 10)),
     ("NOT type = 'transaction'", lambda e: not isinstance(e, data.Transaction)),
+    # tags and links are transaction attributes on the entries table: notes / documents carrying their own do not match
+    ("'pay' IN tags", lambda e: isinstance(e, data.Transaction) and 'pay' in e.tags),
+    ("'link1' IN links", lambda e: isinstance(e, data.Transaction) and 'link1' in e.links),
+    ("tags IS NOT NULL", lambda e: isinstance(e, data.Transaction)),
+    ("links IS NULL AND day < 20", lambda e: not isinstance(e, data.Transaction) and e.date.day < 20),
 ]
 
 PRECISE_LEDGER = ledger.LEDGER_TEXT + '''
@@ -183,6 +188,8 @@ PRECISE_LEDGER = ledger.LEDGER_TEXT + '''
   Expenses:Fees           43.3213 USD
   Assets:Bank            -43.3213 USD
 2019-03-02 balance Assets:Bank  875.6787 USD
+2019-03-03 note Assets:Bank "a tagged note" #pay ^link1
+2019-03-04 document Assets:Bank "/tmp/tagged.pdf" #pay ^link1
 '''
 
 
@@ -356,3 +363,68 @@ def _directive_word(entry):
 def print_periods(k):
     k = enum_int(k, 0, len(PRINT_PERIODS) - 1)
     return native(_print_period_check, k)
+
+
+# ---------------------------------------------------------------------------
+# BALANCES order follows the ledger's own root account names
+
+RENAMED_LEDGER = '''
+option "operating_currency" "USD"
+option "name_liabilities" "Debts"
+option "name_income" "Revenue"
+option "name_expenses" "Costs"
+2019-01-01 open Assets:Bank
+2019-01-01 open Assets:Broker
+2019-01-01 open Debts:Card
+2019-01-01 open Revenue:Salary
+2019-01-01 open Costs:Food
+2019-01-01 open Costs:Fees
+2019-01-01 open Equity:Opening
+
+2019-01-02 * "salary"
+  Assets:Bank           1000.00 USD
+  Revenue:Salary       -1000.00 USD
+2019-01-05 * "buy"
+  Assets:Broker            2 HOOL {100.00 USD}
+  Assets:Bank           -200.00 USD
+2019-01-10 * "lunch"
+  Costs:Food              12.50 USD
+  Debts:Card             -12.50 USD
+2019-01-11 * "fee"
+  Costs:Fees               1.00 USD
+  Equity:Opening          -1.00 USD
+'''
+
+
+def _renamed_check(fname, where):
+    entries, errors, options = loader.load_string(RENAMED_LEDGER)
+    conn = beanquery.connect('beancount:', entries=entries, errors=[], options=options)
+    text = 'BALANCES' + (f' AT {fname}' if fname else '') + (" WHERE NOT account ~ 'Broker'" if where else '')
+    rows = conn.execute(text).fetchall()
+    types = bc_options.get_account_types(options)
+    roots = [types.assets, types.liabilities, types.equity, types.income, types.expenses]
+    per_account = {}
+    for e in entries:
+        if isinstance(e, data.Transaction):
+            for p in e.postings:
+                if where and 'Broker' in p.account:
+                    continue
+                per_account.setdefault(p.account, inventory.Inventory()).add_position(position.Position(p.units, p.cost))
+    want = [(acc, FUNC_OF[fname](inv)) for acc, inv in
+            sorted(per_account.items(), key=lambda kv: (roots.index(kv[0].split(':')[0]), kv[0]))]
+    if [r[0] for r in rows] != [w[0] for w in want]:
+        return 'accounts-not-ordered-by-the-ledgers-account-types'
+    if [tuple(r) for r in rows] != want:
+        return 'balances-rows'
+    return 'ok'
+
+
+@cond('C14.balances.renamed-roots', quick=60,
+      bounds='a ledger that renames three root accounts (Liabilities -> Debts, Income -> Revenue, Expenses -> Costs); BALANCES [AT '
+             'units | cost] [WHERE ...]: per-account sums ordered by the ledger\'s account types (assets, liabilities, equity, '
+             'income, expenses) then name',
+      symbolic='(none)', enumerated='summary function, WHERE presence', params={'fn': int, 'where': bool},
+      note='solver-enumerated and executed natively (the ledger is loaded by the Beancount loader)')
+def balances_renamed_roots(fn, where):
+    fname = pick([None, 'units', 'cost'], fn)
+    return native(_renamed_check, fname, bool(where))
